@@ -154,18 +154,26 @@ func (l *recvLogger) Recs() []loggedRec {
 	return append([]loggedRec(nil), l.recs...)
 }
 
-// recvSide is one receiver instance over a directory triple
+// recvSide is the receiving side of a world.  Every generation (process
+// incarnation) lives under its own directory name <base>/g<N>: on restart the
+// tree is renamed, so that anything a goroutine of the dead instance might still
+// do addresses paths that no longer exist (and its vfs domain stays registered
+// and dead, which parks such goroutines).
 type recvSide struct {
+	Base                             string
+	Gen                              int
 	Root, StageDir, FinalDir, LogDir string
 	Stage                            *stage.Stage
 	Disp                             *recDispatcher
 	Log                              *recvLogger
 	Dom                              *vfs.Domain
+	doms                             []*vfs.Domain
 	seq                              int
 }
 
-func newRecvSide(root string, consume bool) *recvSide {
-	r := &recvSide{Root: root, StageDir: filepath.Join(root, "stage", "src"), FinalDir: filepath.Join(root, "final", "src"), LogDir: filepath.Join(root, "logs", "src")}
+func newRecvSide(base string, consume bool) *recvSide {
+	r := &recvSide{Base: base}
+	r.setDirs()
 	_ = os.MkdirAll(r.StageDir, 0o755)
 	_ = os.MkdirAll(r.FinalDir, 0o755)
 	_ = os.MkdirAll(r.LogDir, 0o755)
@@ -173,10 +181,18 @@ func newRecvSide(root string, consume bool) *recvSide {
 	return r
 }
 
-// boot creates a (new) Stage instance over the same directories
+func (r *recvSide) setDirs() {
+	r.Root = filepath.Join(r.Base, fmt.Sprintf("g%d", r.Gen))
+	r.StageDir = filepath.Join(r.Root, "stage", "src")
+	r.FinalDir = filepath.Join(r.Root, "final", "src")
+	r.LogDir = filepath.Join(r.Root, "logs", "src")
+}
+
+// boot creates a Stage instance over the current directories
 func (r *recvSide) boot(consume bool) {
-	r.Dom = &vfs.Domain{Root: r.Root}
+	r.Dom = &vfs.Domain{Root: r.Root + string(os.PathSeparator)}
 	vfs.Register(r.Dom)
+	r.doms = append(r.doms, r.Dom)
 	dom := r.Dom
 	dead := func() bool { return dom.Dead() }
 	r.Disp = &recDispatcher{final: r.FinalDir, consume: consume, seq: &r.seq, dead: dead}
@@ -190,8 +206,24 @@ func (r *recvSide) crash() {
 	r.Dom.Kill()
 }
 
+// reboot = new process over the same data: the tree moves to the next
+// generation's name and a new Stage is created there (Recover is the caller's job)
+func (r *recvSide) reboot(consume bool) {
+	if !r.Dom.Dead() {
+		r.Dom.Kill()
+	}
+	old := r.Root
+	r.Gen++
+	r.setDirs()
+	_ = os.Rename(old, r.Root)
+	r.boot(consume)
+}
+
 func (r *recvSide) close() {
-	vfs.Unregister(r.Dom)
+	for _, d := range r.doms {
+		vfs.Unregister(d)
+	}
+	r.doms = nil
 }
 
 func (r *recvSide) restamp() {
